@@ -745,6 +745,9 @@ func (t *Teamserver) EventListenerError(ListenerName string, Error error) {
 	}
 }
 
+// ClientWriteTimeout is how long a single event may take to be written to an operator.
+const ClientWriteTimeout = 15 * time.Second
+
 func (t *Teamserver) SendEvent(id string, pk packager.Package) error {
 	var (
 		buffer bytes.Buffer
@@ -760,10 +763,15 @@ func (t *Teamserver) SendEvent(id string, pk packager.Package) error {
 	if isOk {
 		client := value.(*Client)
 		client.Mutex.Lock()
+		// an operator that stopped reading must not hold up the events of everybody else
+		_ = client.Connection.SetWriteDeadline(time.Now().Add(ClientWriteTimeout))
 		err = client.Connection.WriteMessage(websocket.BinaryMessage, buffer.Bytes())
 		client.Mutex.Unlock()
 
 		if err != nil {
+			// after a failed or timed out write the websocket is unusable: close it, the
+			// reader of this client then removes it from the client table
+			_ = client.Connection.Close()
 			return err
 		}
 
